@@ -1284,6 +1284,8 @@ func (fr *frame) invEnv(h *ssa.BasicBlock, st *State, phiSub map[*ssa.Phi]ssa.Va
 						if t, ok := s.comp[key]; ok {
 							return TV{t, "Int", types.Typ[types.Int]}, true
 						}
+						// before the first Next the position is 0
+						return TV{"0", "Int", types.Typ[types.Int]}, true
 					}
 				}
 			}
